@@ -131,6 +131,37 @@ impl<'a> ResourceRecordManager<'a> {
     }
 }
 
+#[cfg(simple_dns_verif)]
+impl<'a> ResourceRecordManager<'a> {
+    /// Verification hook: advance this store's clock by `secs` seconds, by moving every stored
+    /// deadline that far into the past. Returns false if the platform clock cannot represent it.
+    pub fn verif_advance(&mut self, secs: u64) -> bool {
+        let delta = Duration::from_secs(secs);
+        let mut ok = true;
+        let keys: Vec<Vec<u8>> = self.resources.keys().cloned().collect();
+        for key in keys {
+            let Some(resources) = self.resources.get_mut(&key) else {
+                continue;
+            };
+            for resource_type in resources.values_mut() {
+                if let ResourceRecordType::Cached(exp_info) = resource_type {
+                    match (
+                        exp_info.expire_at.checked_sub(delta),
+                        exp_info.refresh_at.checked_sub(delta),
+                    ) {
+                        (Some(e), Some(r)) => {
+                            exp_info.expire_at = e;
+                            exp_info.refresh_at = r;
+                        }
+                        _ => ok = false,
+                    }
+                }
+            }
+        }
+        ok
+    }
+}
+
 impl<'a> Default for ResourceRecordManager<'a> {
     fn default() -> Self {
         Self::new()
